@@ -9,10 +9,13 @@ from harness.world.chaingen import ZERO, MINUS_1, unspendable, script_kind
 
 
 class SimDaemon:
-    def __init__(self, gen, rng, latency=(0, 0, 0.01, 0.05)):
+    def __init__(self, gen, rng, latency=(0, 0, 0.01, 0.05), latency_raw=None):
         self.gen = gen
         self.rng = rng
         self.latency = latency
+        self.latency_raw = latency_raw      # getrawtransactions only (a mempool refresh spanning blocks)
+        self.version = 0                    # bumped by every change of chain or mempool
+        self.listing_version = None         # version at the last getrawmempool
         self.tip = None                 # GBlock
         self.pool = {}                  # txid -> GTx, insertion ordered
         self._height = None
@@ -36,12 +39,43 @@ class SimDaemon:
             else:
                 self.tip = self.gen.new_block(self.tip, max_txs=max_txs)
             self._evict_invalid()
+            self.version += 1
         return self.tip
 
-    def switch(self, block):
-        """The daemon's best chain becomes the one ending in `block` (any branch)."""
+    def switch(self, block, readd=True):
+        """The daemon's best chain becomes the one ending in `block` (any branch).  As a real
+        daemon does, the transactions of the orphaned blocks that are still valid on the new
+        chain go back into the mempool (ahead of what is there: they may be its ancestors)."""
+        old = self.tip.chain() if self.tip else []
+        new_ids = {b.id for b in block.chain()}
+        new_txids = {t.txid for b in block.chain() for t in b.txs}
         self.tip = block
+        if readd:
+            back = {}
+            for b in old:
+                if b.id in new_ids:
+                    continue
+                for t in b.txs[1:]:
+                    if t.txid in new_txids or t.txid in self.pool:
+                        continue
+                    ok = True
+                    for n, k in enumerate(t.ins):
+                        if t.is_gen(n) or k in block.utxos:
+                            continue
+                        # an output of another returning tx: only ordinary scripts (whether an
+                        # unspendable-shaped output is a UTXO depends on the height it is mined at)
+                        parent = back.get(k[0])
+                        if parent is None or script_kind(parent.outs[k[1]][1]) != 0:
+                            ok = False
+                            break
+                    if ok:
+                        back[t.txid] = t
+            if back:
+                back.update(self.pool)
+                self.pool = back
+                self.readded = getattr(self, 'readded', 0) + len(back)
         self._evict_invalid()
+        self.version += 1
 
     def _evict_invalid(self):
         """Drop pool txs whose inputs are neither confirmed-unspent on the tip nor in the pool."""
@@ -86,6 +120,7 @@ class SimDaemon:
             self.pool[tx.txid] = tx
             added.append(tx)
         self._evict_invalid()
+        self.version += 1
         return added
 
     def mp_evict(self, n=1):
@@ -94,11 +129,12 @@ class SimDaemon:
                 txid = self.rng.choice(list(self.pool))
                 del self.pool[txid]
         self._evict_invalid()
+        self.version += 1
 
     # -- the Daemon surface
-    async def _lat(self):
+    async def _lat(self, choices=None):
         self.calls += 1
-        d = self.rng.choice(self.latency)
+        d = self.rng.choice(choices or self.latency)
         await asyncio.sleep(d)
 
     def logged_url(self):
@@ -130,11 +166,12 @@ class SimDaemon:
 
     async def mempool_hashes(self):
         await self._lat()
+        self.listing_version = self.version
         return [hash_to_hex_str(txid) for txid in self.pool]
 
     async def getrawtransactions(self, hex_hashes, replace_errs=True):
         hex_hashes = list(hex_hashes)
-        await self._lat()
+        await self._lat(self.latency_raw)
         out = []
         for hh in hex_hashes:
             tx = self.pool.get(hex_str_to_hash(hh))
